@@ -511,6 +511,10 @@ func (t *Transition) emitSelfEvents() Result {
 			if t.IsAuto() && autoState {
 				targetStates := t.TargetStates()
 				idx := slices.Index(targetStates, s)
+				if idx == -1 || idx >= len(t.TargetIndexes) {
+					// eg the machine is being disposed
+					return ret
+				}
 				t.TargetIndexes = slices.Delete(t.TargetIndexes, idx, idx+1)
 				targetStates = slices.Delete(targetStates, idx, idx+1)
 				t.cacheTargetStates.Store(&targetStates)
@@ -535,6 +539,10 @@ func (t *Transition) emitEnterEvents() Result {
 				// partial auto state acceptance
 				targetStates := t.TargetStates()
 				idx := slices.Index(targetStates, toState)
+				if idx == -1 || idx >= len(t.TargetIndexes) {
+					// eg the machine is being disposed
+					return ret
+				}
 				t.TargetIndexes = slices.Delete(t.TargetIndexes, idx, idx+1)
 				targetStates = slices.Delete(targetStates, idx, idx+1)
 				t.cacheTargetStates.Store(&targetStates)
@@ -560,7 +568,7 @@ func (t *Transition) emitExitEvents() Result {
 				// partial auto state acceptance
 				targetStates := t.TargetStates()
 				idx := slices.Index(targetStates, fromState)
-				if idx == -1 {
+				if idx == -1 || idx >= len(t.TargetIndexes) {
 					// an exiting state is never a target, nothing to reject
 					return ret
 				}
@@ -662,6 +670,10 @@ func (t *Transition) emitStateStateEvents() Result {
 				if idx == -1 {
 					// already removed
 					continue
+				}
+				if idx >= len(t.TargetIndexes) {
+					// eg the machine is being disposed
+					return ret
 				}
 				t.TargetIndexes = slices.Delete(t.TargetIndexes, idx, idx+1)
 
